@@ -309,6 +309,7 @@ var c07Roles = []string{"value", "float", "string", "array", "object"}
 func c07NewEnc(p *fw.Program, label string, encT *types.Named) (*c07Enc, error) {
 	e := &c07Enc{p: p, label: label, encT: encT, pkg: encT.Obj().Pkg(), roles: map[string]*ssa.Function{}, roleOf: map[*ssa.Function]string{}, kinds: map[string]c07AtomKind{}}
 	ms := types.NewMethodSet(types.NewPointer(encT))
+	cands := map[string][]*ssa.Function{}
 	for i := 0; i < ms.Len(); i++ {
 		fn := p.SSA.MethodValue(ms.At(i))
 		if fn == nil || fn.Blocks == nil {
@@ -342,11 +343,31 @@ func c07NewEnc(p *fw.Program, label string, encT *types.Named) (*c07Enc, error) 
 		if role == "" {
 			continue
 		}
-		if e.roles[role] != nil {
-			return nil, fmt.Errorf("%s encoder %s: two methods take the %s role (%s, %s)", label, encT.Obj().Name(), role, e.roles[role].Name(), fn.Name())
+		cands[role] = append(cands[role], fn)
+	}
+	// a role is the method of that parameter type the value encoder dispatches to (a helper that happens to
+	// take a string or a float first is not a role)
+	for _, role := range c07Roles {
+		cs := cands[role]
+		if len(cs) > 1 && role != "value" && len(cands["value"]) == 1 {
+			var called []*ssa.Function
+			for _, c := range cs {
+				for _, call := range fw.CallsIn(cands["value"][0]) {
+					if call.Common().StaticCallee() == c {
+						called = append(called, c)
+						break
+					}
+				}
+			}
+			cs = called
 		}
-		e.roles[role] = fn
-		e.roleOf[fn] = role
+		if len(cs) > 1 {
+			return nil, fmt.Errorf("%s encoder %s: two methods take the %s role (%s, %s)", label, encT.Obj().Name(), role, cs[0].Name(), cs[1].Name())
+		}
+		if len(cs) == 1 {
+			e.roles[role] = cs[0]
+			e.roleOf[cs[0]] = role
+		}
 	}
 	for _, r := range c07Roles {
 		if e.roles[r] == nil {
@@ -388,6 +409,8 @@ type c07Ctx struct {
 	edge  map[*ssa.BasicBlock][]c07State
 	in    map[*ssa.BasicBlock]c07State
 	order []*ssa.BasicBlock // topological order of the loop-cut CFG, loop bodies before loop exits
+
+	liDepth int // recursion guard of loopIndex <-> rooted
 }
 
 func c07tstr(t types.Type) string {
@@ -479,6 +502,17 @@ func (c *c07Ctx) rooted(v ssa.Value) bool {
 					if st, ok := r.(*ssa.Store); ok && st.Addr == ssa.Value(x) && rec(st.Val, d+1) {
 						return true
 					}
+					// an element or a field of the local (composite literal, variadic argument array)
+					if part, ok := r.(ssa.Value); ok && part.Referrers() != nil {
+						switch r.(type) {
+						case *ssa.IndexAddr, *ssa.FieldAddr:
+							for _, r2 := range *part.Referrers() {
+								if st, ok := r2.(*ssa.Store); ok && st.Addr == part && rec(st.Val, d+1) {
+									return true
+								}
+							}
+						}
+					}
 				}
 			}
 			return false
@@ -499,6 +533,11 @@ func (c *c07Ctx) loopIndex(p *ssa.Phi) bool {
 	if b, ok := p.Type().Underlying().(*types.Basic); !ok || b.Info()&types.IsInteger == 0 || p.Referrers() == nil {
 		return false
 	}
+	if c.liDepth > 2 {
+		return false
+	}
+	c.liDepth++
+	defer func() { c.liDepth-- }()
 	check := func(v ssa.Value) bool {
 		if v.Referrers() == nil {
 			return false
@@ -515,7 +554,7 @@ func (c *c07Ctx) loopIndex(p *ssa.Phi) bool {
 					other = bo.Y
 				}
 				if call, ok := other.(*ssa.Call); ok && fw.IsBuiltinCall(call, "len") {
-					if _, isPhi := call.Common().Args[0].(*ssa.Phi); !isPhi && c.rooted(call.Common().Args[0]) {
+					if c.rooted(call.Common().Args[0]) {
 						return true
 					}
 				}
@@ -888,7 +927,11 @@ func (c *c07Ctx) cond(v ssa.Value) c07Cond {
 			return c07Cond{}
 		}
 		a := c.desc(l)
-		c.enc.kinds[a] = c.kindOf(l.Type())
+		kd := c.kindOf(l.Type())
+		if mn, ok := c07IndMin(l); ok && kd.min == nil && !kd.float && !kd.boolean {
+			kd.min = constant.MakeInt64(mn) // a counter that starts at a constant and only grows
+		}
+		c.enc.kinds[a] = kd
 		return c07Cond{isAtom: true, atom: a, lit: c07Lit{op, cv}}
 	}
 	if b, ok := v.Type().Underlying().(*types.Basic); ok && b.Info()&types.IsBoolean != 0 {
@@ -1179,6 +1222,15 @@ func (c *c07Ctx) run(entry c07State) {
 					if c.isConfig(arg) {
 						continue
 					}
+					if sl, ok := arg.(*ssa.Slice); ok {
+						// verbatim copies of stretches of the input string: which stretches, and that together with
+						// the replacements they cover every byte once, is C07.scan's obligation
+						if pa, ok := sl.X.(*ssa.Parameter); ok && c.bind[pa].kind == c07bData {
+							if b, ok := pa.Type().Underlying().(*types.Basic); ok && b.Kind() == types.String {
+								continue
+							}
+						}
+					}
 					c.emitEvent("emit "+c.render(arg, 4), st)
 					continue
 				}
@@ -1187,7 +1239,22 @@ func (c *c07Ctx) run(entry c07State) {
 					continue
 				}
 				if role, ok := c.enc.roleOf[f]; ok {
-					c.emitEvent("encode:"+role, st)
+					// which datum is encoded: shallow shape only (element / field by type / counter), no names
+					what := ""
+					if len(cc.Args) >= 2 {
+						a := cc.Args[1]
+						if ex, ok := a.(*ssa.Extract); ok && ex.Index == 0 {
+							if ta, ok := ex.Tuple.(*ssa.TypeAssert); ok {
+								a = ta // v.(T) and v, ok := v.(T) are the same datum
+							}
+						}
+						if ta, ok := a.(*ssa.TypeAssert); ok {
+							what = "(as:" + c07tstr(ta.AssertedType) + ")"
+						} else {
+							what = "(" + c.render(a, 1) + ")"
+						}
+					}
+					c.emitEvent("encode:"+role+what, st)
 					continue
 				}
 				if f.Pkg == nil || f.Pkg.Pkg != c.enc.pkg || f.Blocks == nil || c.depth >= 3 || c.stack[f] {
@@ -1353,6 +1420,7 @@ func c07Encoder(r *fw.Run, p *fw.Program, ref *c07Ref) {
 	c07Clamp(ru, p, mine, theirs)
 	c07KeyOrder(ru, p, mine, "fq")
 	c07KeyOrder(ru, p, theirs, "engine")
+	c07Pairs(ru, p, mine)
 	c07Marshal(ru, p, mine)
 }
 
@@ -1582,24 +1650,199 @@ func c07CmpAscending(f *ssa.Function, less bool) (string, string) {
 	return res, detail
 }
 
-// c07Marshal: the exported entry point encodes its own argument and flushes what was buffered.
+// c07Marshal: the exported entry point encodes its own argument into the staging buffer and hands every
+// staged byte exactly once to the caller's writer: the sink is set from the writer argument before encoding,
+// a flush is executed on every path after encoding, the flush writes the staged bytes to the sink and then
+// empties the buffer, and nothing else ever empties or truncates the buffer.
 func c07Marshal(ru *fw.Rule, p *fw.Program, e *c07Enc) {
 	ms := types.NewMethodSet(types.NewPointer(e.encT))
 	var m *ssa.Function
+	var methods []*ssa.Function
 	for i := 0; i < ms.Len(); i++ {
+		mf := p.SSA.MethodValue(ms.At(i))
+		if mf == nil || mf.Blocks == nil {
+			continue
+		}
+		methods = append(methods, mf)
 		if ms.At(i).Obj().Exported() && ms.At(i).Obj().Name() == "Marshal" {
-			m = p.SSA.MethodValue(ms.At(i))
+			m = mf
 		}
 	}
-	if m == nil || len(m.Params) < 2 {
-		ru.Undecided("Marshal", "", "colorjson.Encoder.Marshal not found")
+	if m == nil || len(m.Params) < 3 {
+		ru.Undecided("Marshal", "", "colorjson.Encoder.Marshal(v, w) not found")
 		return
 	}
-	ok := false
+	var enc ssa.CallInstruction
 	for _, c := range fw.CallsIn(m) {
 		if f := c.Common().StaticCallee(); f != nil && e.roleOf[f] == "value" && len(c.Common().Args) == 2 && c.Common().Args[1] == ssa.Value(m.Params[1]) {
-			ok = true
+			enc = c
 		}
 	}
-	ru.Check(ok, "Marshal: encodes its argument", p.Rel(m.Pos()), "encode(v)", "Marshal does not pass its value argument to the value encoder")
+	ru.Check(enc != nil, "Marshal: encodes its argument", p.Rel(m.Pos()), "encode(v)", "Marshal does not pass its value argument to the value encoder")
+	if enc == nil {
+		return
+	}
+	// fields by type: the sink (an interface with Write) and the staging buffer (bytes.Buffer)
+	st, _ := e.encT.Underlying().(*types.Struct)
+	sinkF, bufF := -1, -1
+	for i := 0; st != nil && i < st.NumFields(); i++ {
+		t := st.Field(i).Type()
+		if pt, ok := t.(*types.Pointer); ok {
+			t = pt.Elem()
+		}
+		switch {
+		case t.String() == "bytes.Buffer":
+			bufF = i
+		case t.String() == "io.Writer":
+			sinkF = i
+		}
+	}
+	if sinkF < 0 || bufF < 0 {
+		ru.Undecided("Marshal: fields", p.Rel(m.Pos()), "encoder has no io.Writer sink field / bytes.Buffer staging field")
+		return
+	}
+	// isField: v is (a load of) field idx of the function's receiver
+	isField := func(fn *ssa.Function, v ssa.Value, idx int) bool {
+		if u, ok := v.(*ssa.UnOp); ok && u.Op == token.MUL {
+			v = u.X
+		}
+		fa, ok := v.(*ssa.FieldAddr)
+		return ok && fa.Field == idx && len(fn.Params) > 0 && fa.X == ssa.Value(fn.Params[0])
+	}
+	bufCall := func(fn *ssa.Function, c ssa.CallInstruction, name string) bool {
+		f := c.Common().StaticCallee()
+		return f != nil && f.String() == "(*bytes.Buffer)."+name && len(c.Common().Args) >= 1 && isField(fn, c.Common().Args[0], bufF)
+	}
+	// sinkWrite: out.Write(buf.Bytes())
+	sinkWrite := func(fn *ssa.Function) ssa.CallInstruction {
+		for _, c := range fw.CallsIn(fn) {
+			cc := c.Common()
+			if !cc.IsInvoke() || cc.Method.Name() != "Write" || !isField(fn, cc.Value, sinkF) || len(cc.Args) != 1 {
+				continue
+			}
+			if bc, ok := cc.Args[0].(*ssa.Call); ok && bufCall(fn, bc, "Bytes") {
+				return c
+			}
+		}
+		return nil
+	}
+	after := func(a, b ssa.Instruction) bool { // a is executed before b whenever b is
+		if a.Block() == b.Block() {
+			for _, ins := range a.Block().Instrs {
+				if ins == a {
+					return true
+				}
+				if ins == b {
+					return false
+				}
+			}
+		}
+		return a.Block().Dominates(b.Block())
+	}
+	onEveryReturn := func(fn *ssa.Function, a ssa.Instruction) bool {
+		ok, n := true, 0
+		fw.EachInstr(fn, func(ins ssa.Instruction) {
+			if ret, isRet := ins.(*ssa.Return); isRet {
+				n++
+				if !after(a, ret) {
+					ok = false
+				}
+			}
+		})
+		return ok && n > 0
+	}
+	pos := p.Rel(m.Pos())
+	// M1 sink
+	okSink := false
+	fw.EachInstr(m, func(ins ssa.Instruction) {
+		if s, ok := ins.(*ssa.Store); ok && isField(m, s.Addr, sinkF) && s.Val == ssa.Value(m.Params[2]) && after(s, enc) {
+			okSink = true
+		}
+	})
+	ru.Check(okSink, "Marshal: sink", pos, "the sink is the writer argument, set before encoding", "Marshal does not store its writer argument into the sink field before encoding: output goes to a stale writer")
+	// M2 flush on every path after encode
+	var flushFn *ssa.Function
+	okFlush := false
+	for _, c := range fw.CallsIn(m) {
+		f := c.Common().StaticCallee()
+		if f == nil || f.Blocks == nil || len(c.Common().Args) == 0 || c.Common().Args[0] != ssa.Value(m.Params[0]) {
+			continue
+		}
+		if sinkWrite(f) != nil {
+			flushFn = f
+			if after(enc, c) && onEveryReturn(m, c) {
+				okFlush = true
+			}
+		}
+	}
+	if sw := sinkWrite(m); sw != nil && flushFn == nil {
+		flushFn = m
+		okFlush = after(enc, sw) && onEveryReturn(m, sw)
+	}
+	ru.Check(okFlush, "Marshal: flushes", pos, "the staged bytes are written to the sink on every path after encoding", "Marshal does not flush the staging buffer to the sink on every path after encoding: (the tail of) the output is never written")
+	if flushFn == nil {
+		return
+	}
+	// M3/M4 flush writes then resets, unconditionally
+	sw := sinkWrite(flushFn)
+	var reset ssa.CallInstruction
+	for _, c := range fw.CallsIn(flushFn) {
+		if bufCall(flushFn, c, "Reset") {
+			reset = c
+		}
+	}
+	ru.Check(reset != nil && after(sw, reset) && onEveryReturn(flushFn, reset), "flush: empties the buffer", p.Rel(flushFn.Pos()), "Write(buf.Bytes()) then buf.Reset() on every path", "the flush does not empty the staging buffer after writing it (on every path): the same bytes are written again by the next flush")
+	// M5 nothing else drops staged bytes
+	okOnly := true
+	where := ""
+	for _, fn := range methods {
+		for _, c := range fw.CallsIn(fn) {
+			if !(bufCall(fn, c, "Reset") || bufCall(fn, c, "Truncate") || bufCall(fn, c, "Next") || bufCall(fn, c, "Read")) {
+				continue
+			}
+			w := sinkWrite(fn)
+			if w == nil || !after(w, c) {
+				okOnly = false
+				where = p.Rel(c.Pos())
+			}
+		}
+	}
+	ru.Check(okOnly, "flush: only place that drops staged bytes", pos, "every Reset/Truncate of the staging buffer follows a write of its bytes to the sink", "staged output bytes are discarded without having been written to the sink (at "+where+")")
+}
+
+// c07IndMin: v is an integer counter `phi(c0, v+k)` with constant k > 0, or such a counter advanced by a
+// constant; returns its least value (it starts at a constant and only grows; overflow is out of scope for
+// indices into in-memory slices).
+func c07IndMin(v ssa.Value) (int64, bool) {
+	add := int64(0)
+	if bo, ok := v.(*ssa.BinOp); ok && bo.Op == token.ADD {
+		k, ok := bo.Y.(*ssa.Const)
+		if !ok || k.Value == nil || k.Value.Kind() != constant.Int {
+			return 0, false
+		}
+		add = k.Int64()
+		v = bo.X
+	}
+	phi, ok := v.(*ssa.Phi)
+	if !ok || len(phi.Edges) != 2 {
+		return 0, false
+	}
+	var start *ssa.Const
+	var step ssa.Value
+	for _, e := range phi.Edges {
+		if k, ok := e.(*ssa.Const); ok && k.Value != nil && k.Value.Kind() == constant.Int && start == nil {
+			start = k
+		} else {
+			step = e
+		}
+	}
+	bo, ok := step.(*ssa.BinOp)
+	if start == nil || !ok || bo.Op != token.ADD || bo.X != ssa.Value(phi) {
+		return 0, false
+	}
+	k, ok := bo.Y.(*ssa.Const)
+	if !ok || k.Value == nil || k.Value.Kind() != constant.Int || k.Int64() <= 0 {
+		return 0, false
+	}
+	return start.Int64() + add, true
 }
